@@ -1209,6 +1209,14 @@ func (a *Assembler) closeHalfConnection(conn *connection, half *halfconnection) 
 		a.pc.replace(p)
 		half.pages--
 	}
+	half.first, half.last = nil, nil
+	// pages kept on the stream's request (KeepFrom) will never be presented
+	// again: give them back too, or they stay accounted as used forever
+	for p := half.saved; p != nil; p = next {
+		next = p.next
+		a.pc.replace(p)
+	}
+	half.saved = nil
 
 	if conn.s2c.closed && conn.c2s.closed {
 		if half.stream.ReassemblyComplete(nil) { //FIXME: which context to pass ?
